@@ -21,5 +21,9 @@ for mp in sorted(glob.glob(os.path.join(V, 'seeded', '*', 'meta.json'))):
     if missed:
         c += ' / not by ' + ', '.join(missed)
     note = m.get('history', '')
-    print('| %s | `%s` %s | %s Needs: %s | %s | %s |' % (sid, m.get('file', ''), m.get('function', '').replace('|', '/'), m.get('what', '').replace('|', '/'),
-                                                     m.get('needs', '').replace('|', '/'), c.replace('|', '/'), note.replace('|', '/')))
+    def cut(t, n):
+        t = ' '.join(t.split())
+        return t if len(t) <= n else t[:n - 1] + '...'
+
+    print('| %s | `%s` %s | %s Needs: %s | %s | %s |' % (sid, m.get('file', ''), m.get('function', '').replace('|', '/'), cut(m.get('what', ''), 220).replace('|', '/'),
+                                                     cut(m.get('needs', ''), 220).replace('|', '/'), c.replace('|', '/'), cut(note, 260).replace('|', '/')))
